@@ -66,6 +66,8 @@ def make_scenarios(ctx, uni, rng, n, thorough):
         sc.setdefault("config", rng.random() < 0.4)
         sc["cuts"] = cuts
         sc["follow"] = follow
+        # I/O errors / short writes injected at single temp-file operations (the runs on files at rest can be repeated)
+        sc["faults"] = (6 if thorough else 4) if sc["ep"] in ("cli", "api", "load") and len(scs) % 2 == 0 else 0
         sc["seed"] = rng.randint(1, 2 ** 31)
         sc["id"] = len(scs) + 1
         scs.append(sc)
@@ -219,7 +221,7 @@ def run(ctx):
     if set(results) != set(byid):
         raise vlib.Inconclusive("driver returned results for %d of %d scenarios" % (len(results), len(byid)))
 
-    images = follows = 0
+    images = follows = faults = 0
     nknown = nharm = 0
     for sid, sc in sorted(byid.items()):
         res = results[sid]
@@ -227,6 +229,7 @@ def run(ctx):
             raise vlib.Inconclusive("driver problem in scenario %d: %s" % (sid, res["notes"]))
         images += res["images"]
         follows += res["follows"]
+        faults += res.get("faults", 0)
         key = [sc["ep"], sc["via"], sc["stale"].get("kind"), sc["hist"], sc["stale"].get("ents")]
         ctx.count_case(key, nontrivial=(sc["stale"].get("kind") != "none" or res["images"] > 0))
         ctx.cov["traces_validated_against_impl"] += 1
@@ -245,8 +248,8 @@ def run(ctx):
                 ctx.known_seen[FID] = what
         else:
             ctx.deviation(None, what + " and not explained by " + DEV, dict(kind="scenario", scenario=sc, harm=harm[:5]))
-    ctx.cov["evaluations"] += images + follows
-    ctx.extra.update(scenarios=len(scs), crash_images=images, followup_cli_compactions=follows, trace_lines=lines_total[0],
+    ctx.cov["evaluations"] += images + follows + faults
+    ctx.extra.update(scenarios=len(scs), crash_images=images, followup_cli_compactions=follows, fault_injected_runs=faults, trace_lines=lines_total[0],
                      scenarios_accepted_by_strict=len(strict_ok), scenarios_known_finding=nknown,
                      known_finding_scenarios_with_visible_damage=nharm)
     ctx.sample(dict(kind="scenario", scenario={k: v for k, v in scs[0].items()}))
